@@ -9,7 +9,7 @@ from props import _cl, _clr
 
 PROP = "C08"
 GO_PKGS = [("clrdrv", True)]
-MODEL_VO = ["theories/CLR/RCorr.vo"]
+MODEL_VO = ["theories/C08/Corr.vo"]
 ALLOWED_AXIOMS = []
 translate = _clr.translate
 
@@ -335,7 +335,7 @@ def selftest(pairs, K, out):
         if p[6] not in ("", "0"):
             p[6] = str(int(p[6]) + 1)
             break
-    bad, errs = _clr.eval_cases("C08_self", [(c, o), (c, o3)], K, per_file=2)
+    bad, errs = _clr.eval_cases("C08_self", [(c, o), (c, o3)], K, per_file=2, case_ok="c08_case_ok", imports="C08.Corr")
     if errs or bad != [1]:
         out.mismatches.append({"what": "self-test: rcase_ok did not reject exactly the perturbed expectation (got %s %s)" % (bad, errs[:1]), "case": None})
     else:
@@ -358,11 +358,11 @@ def run_cases(cases, model_ok, out, tag, K, selft=False):
             out.nontrivial.add(json.dumps(c, sort_keys=True))
         pairs.append((c, o))
     if model_ok and pairs:
-        bad, errs = _clr.eval_cases("C08_" + tag, pairs, K)
+        bad, errs = _clr.eval_cases("C08_" + tag, pairs, K, case_ok="c08_case_ok", imports="C08.Corr")
         for fi, txt in errs:
             out.mismatches.append({"what": "model evaluation failed: " + txt, "case": None})
         for i in bad:
-            out.mismatches.append({"what": "CLR model observables differ from the implementation's", "case": pairs[i][0]})
+            out.mismatches.append({"what": "CLR model observables differ from the implementation's (or a swap of the case has an ill-formed tick trace)", "case": pairs[i][0]})
         if selft:
             selftest(pairs, K, out)
     elif not model_ok:
